@@ -391,6 +391,12 @@ def generate(rng, tier, index):
             comp["types"].append(t)
             comp_types.append(t)
         plan["components"][pname] = comp
+    if npk == 2 and rng.random() < 0.3:
+        # the two component packages import each other (a cycle that only
+        # terminates because a component counts as known before it is parsed)
+        plan["components"]["zcsim_p1"]["imports"].append("zcsim_p0")
+    if npk and rng.random() < 0.05:
+        plan["components"]["zcsim_p0"]["imports"].append("zcsim_p0")
     if npk == 2 and rng.random() < 0.5:
         plan["components"]["zcsim_p0"]["imports"].append("zcsim_p1")
         # p0 may extend a type of p1
@@ -567,12 +573,17 @@ def execute(plan):
         w.begin_op("load-schema")
         so = ops.schema_outcome(lambda: ops.load_schema_text(xml, SCHEMA_URL))
         w.end_op("ok" if so["ok"] else so["cls"])
-        m0 = Model(plan, {})
         schema_expected = True
         try:
-            Model(plan, {})
-        except Reject:
+            m0 = Model(plan, {})
+        except Reject as r:
             schema_expected = False
+            if so["ok"]:
+                violation("schema-accepted-but-model-rejects", "schema",
+                          "the schema with its schema-level imports loaded, "
+                          "the model refuses it: %s" % r, 0)
+            out["waste"] += 1
+            return out
         if not so["ok"]:
             if schema_expected:
                 raise RuntimeError("C12 schema rejected: %s\n%s"
